@@ -62,6 +62,8 @@ struct FaultCase {
     implicit: bool,
     stats: bool,
     m0: bool,
+    /// every entry of the tree is given as its own path argument (more roots than threads), not the directory
+    roots: bool,
     ents: Vec<char>,
 }
 
@@ -82,7 +84,7 @@ fn gen_fault(rng: &mut Rng, boundary: bool) -> String {
     let j = if rng.chance(1, 2) { 1 } else { 4 };
     let sort = j == 1 && rng.chance(1, 2);
     format!(
-        "fault seed={} mode={} j={} q={} sort={} nomsg={} L={} impl={} stats={} m0={} ents={}",
+        "fault seed={} mode={} j={} q={} sort={} nomsg={} L={} impl={} stats={} m0={} roots={} ents={}",
         rng.below(1 << 30),
         mode,
         j,
@@ -93,6 +95,7 @@ fn gen_fault(rng: &mut Rng, boundary: bool) -> String {
         implicit as u8,
         (mode != "files" && rng.chance(1, 8)) as u8,
         (mode != "files" && rng.chance(1, 30)) as u8,
+        (!implicit && n >= 2 && rng.chance(1, 4)) as u8,
         if ents.is_empty() { "-".to_string() } else { ents }
     )
 }
@@ -118,6 +121,7 @@ fn parse_fault(case: &str) -> Option<FaultCase> {
         implicit: b("impl")?,
         stats: b("stats")?,
         m0: b("m0")?,
+        roots: b("roots").unwrap_or(false) && !b("impl")?,
         ents,
     })
 }
@@ -247,8 +251,21 @@ fn run_fault(case: &str, c: &FaultCase, ctx: &mut Ctx, drv: &mut Driver, rep: &m
         cmd.arg("--pre").arg(&script);
     }
     if searching { cmd.arg("needle"); }
+    let with_roots = c.roots && c.ents.iter().filter(|k| !matches!(k, 'X' | 'Y')).count() >= 2;
     if c.implicit {
         cmd.current_dir(&t);
+    } else if with_roots {
+        cmd.current_dir(&dir);
+        for (i, k) in c.ents.iter().enumerate() {
+            match k {
+                'm' | 'n' | 'u' | 'R' | 'T' => { cmd.arg(format!("t/{}.txt", tok(i))); }
+                'D' | 'G' => { cmd.arg(format!("t/{}.d", tok(i))); }
+                'l' => { cmd.arg(format!("t/{}.lnk", tok(i))); }
+                _ => {}
+            }
+        }
+        cmd.args(&extra_args);
+        rep.branch("several-roots");
     } else {
         cmd.current_dir(&dir);
         cmd.arg("t");
@@ -261,7 +278,7 @@ fn run_fault(case: &str, c: &FaultCase, ctx: &mut Ctx, drv: &mut Driver, rep: &m
     if out.timed_out {
         rep.violation(Violation {
             kind: "impl_vs_spec".into(), class: "".into(), tie: "rg terminates".into(), case: case.to_string(),
-            detail: format!("rg did not terminate within {:?}", WATCHDOG),
+            detail: format!("rg did not terminate within {:?} (twice: re-run with a doubled limit)", WATCHDOG),
         });
         remove_tree(&dir);
         return;
@@ -274,7 +291,7 @@ fn run_fault(case: &str, c: &FaultCase, ctx: &mut Ctx, drv: &mut Driver, rep: &m
 
     // ---- per-entry outcomes (the model's input)
     let par = c.j > 1 && !c.sort;
-    let mut items: Vec<String> = vec!["s".to_string()]; // the root directory itself
+    let mut items: Vec<String> = if with_roots { vec![] } else { vec!["s".to_string()] }; // the root directory itself
     let mut tail: Vec<String> = vec![]; // explicit extra paths come after the tree, in argument order
     let mut visible: BTreeSet<usize> = BTreeSet::new(); // entries whose results show on stdout when produced
     let f = if uses_pre { "pf" } else { "f" };
@@ -296,7 +313,8 @@ fn run_fault(case: &str, c: &FaultCase, ctx: &mut Ctx, drv: &mut Driver, rep: &m
                 items.push(format!("({} {} m o)", f, i));
                 visible.insert(i);
             }
-            'l' => items.push(if c.follow { "w".into() } else { "s".into() }),
+            // a dangling symlink: skipped inside a tree (unless -L), an error when named on the command line
+            'l' => items.push(if c.follow || with_roots { "w".into() } else { "s".into() }),
             'X' | 'Y' => tail.push("w".into()),
             'R' => {
                 // removed between listing and opening — unless it happened to be opened first: classify by
@@ -362,7 +380,7 @@ fn run_fault(case: &str, c: &FaultCase, ctx: &mut Ctx, drv: &mut Driver, rep: &m
     // what the observation can tell us about diagnostics: the set of entry tokens named on stderr.
     // Walker errors (`w`) carry no id in the model; compare their count through the tokens of D/l/X/Y entries.
     let walk_tokens: BTreeSet<usize> = c.ents.iter().enumerate()
-        .filter(|(_, k)| matches!(k, 'D' | 'X' | 'Y') || (**k == 'l' && c.follow)).map(|(i, _)| i).collect();
+        .filter(|(_, k)| matches!(k, 'D' | 'X' | 'Y') || (**k == 'l' && (c.follow || with_roots))).map(|(i, _)| i).collect();
     let expect_diag_tokens = |d: &BTreeSet<String>| -> BTreeSet<usize> {
         let mut s = diag_ids(d);
         if d.contains("w") { s.extend(walk_tokens.iter().copied()); }
@@ -666,7 +684,7 @@ fn run_pipe(case: &str, ctx: &mut Ctx, drv: &mut Driver, rep: &mut Report) {
     if out.timed_out || reference.timed_out {
         rep.violation(Violation {
             kind: "impl_vs_spec".into(), class: "".into(), tie: "a closed pipe ends the run promptly".into(),
-            case: case.to_string(), detail: format!("rg did not terminate within {:?} after the consumer went away", WATCHDOG),
+            case: case.to_string(), detail: format!("rg did not terminate within {:?} (twice: re-run with a doubled limit) after the consumer went away", WATCHDOG),
         });
         return;
     }
@@ -863,5 +881,9 @@ fn main() {
         }
     }
     let _ = BTreeMap::<u8, u8>::new();
+    if watchdog_retries() > 0 {
+        rep.branches.insert("watchdog-retries".to_string(), watchdog_retries());
+        rep.notes.push(format!("{} child process(es) exceeded the {:?} watchdog and were re-run with twice the limit", watchdog_retries(), WATCHDOG));
+    }
     rep.write(&args);
 }
